@@ -380,7 +380,7 @@ func (g *treeGen) stack(depth int) Node {
 
 func (g *treeGen) cond(depth int) Node {
 	n := Node{"t": "cnd", "form": "native", "kw": g.toks(1, 3, []string{"k", "w", "d", "1"}),
-		"op": []string{"Eq", "Ne", "Lt", "Gt", "Le", "Ge", "user", "none"}[g.rng.Intn(8)],
+		"op": []string{"Eq", "Ne", "Lt", "Gt", "Le", "Ge", "user", "none", "op9"}[g.rng.Intn(9)],
 		"paren": g.rng.Intn(3) == 0, "nspad": g.rng.Intn(3) == 0, "enc": g.enc()}
 	switch r := g.rng.Intn(10); {
 	case r == 0:
